@@ -181,13 +181,17 @@ PROBES = {
            "members": [{"m": {"x": {"list": []}}}, {"m": {"x": {"list": [_T1]}}}]},
     "DST": {"kind": "send", "W": 3, "group": [1, 2], "dst": 1, "members": [_T1, {"dtype": "float32", "shape": [3], "data": [1, 2, 3]}]},
     "D10": {"kind": "send", "W": 2, "group": [0, 1], "dst": None, "members": [{"dtype": "float32", "shape": [], "data": 1}, _T1]},
+    # fixes/sync-dtype.patch (dtype negotiation next to the ndim negotiation): a float32 and a float64 scalar
+    "DT": {"kind": "send", "W": 2, "group": [0, 1], "dst": None,
+           "members": [{"dtype": "float32", "shape": [], "data": 1}, {"dtype": "float64", "shape": [], "data": 2}]},
 }
 _VARIANT = None
 
 
 def detect_variant():
     """The correspondence DECIDES which variant of the model the tree implements (DESIGN 2.3): the three
-    witness scenarios are run on the real code; returns {"D12": fixed?, "D9": fixed?, "DST": fixed?}."""
+    witness scenarios are run on the real code; returns {"D12": fixed?, "D9": fixed?, "DST": fixed?, "D10": fixed?,
+    "DT": fixed?} (DT = dtype negotiation of send_tensors, fixes/sync-dtype.patch; model switch fx_dt)."""
     global _VARIANT
     if _VARIANT is not None:
         return _VARIANT
@@ -200,13 +204,15 @@ def detect_variant():
     v["DST"] = all(out[r][0] == "ok" for r in (1, 2))
     out, _ = run_sim(PROBES["D10"])
     v["D10"] = all(out[r][0] == "ok" for r in (0, 1))
+    out, _ = run_sim(PROBES["DT"])
+    v["DT"] = all(out[r][0] == "ok" for r in (0, 1))
     _VARIANT = v
     return v
 
 
 def variant_val():
     v = detect_variant()
-    return [v["D12"], v["D9"], v["DST"], v["D10"]]
+    return [v["D12"], v["D9"], v["DST"], v["D10"], v["DT"]]
 
 
 def variant_note():
